@@ -319,3 +319,36 @@ Definition life_cert_with (tbl : ptable) (S : pset) : bool :=
                                       | Ok a' => PositiveSet.mem (code a') S
                                       | Panicked => false
                                       end) aevents)) all_astates.
+
+(* ---------------------------------------------------------------- diagnosis for the delay loop:
+   the first of the job-control request sequences the dispatcher can produce (Stop and Continue
+   alternate, either may come first) after which the delay loop has failed internally, or after
+   whose last request the two delay clocks are not both paused (Stop) / both running (Continue).
+   Codes as in [aevent_code]: 8 = Stop, 9 = Continue; [] = none found. *)
+Definition delay_seqs : list (list ureq) :=
+  [[RStop]; [RContinue]; [RStop; RContinue]; [RContinue; RStop]; [RStop; RContinue; RStop];
+   [RContinue; RStop; RContinue]; [RStop; RContinue; RStop; RContinue];
+   [RContinue; RStop; RContinue; RStop]].
+
+Fixpoint delay_run_bad (tbl : ptable) (d : dstate) (rs : list ureq) : bool :=
+  match rs with
+  | [] => false
+  | r :: rs' =>
+      match dstep tbl d (DReq r) with
+      | Panicked => true
+      | Ok (d', outs) =>
+          let both b := Bool.eqb (lpaused (k_dsl (d_ck d'))) b && Bool.eqb (spaused (k_dwsw (d_ck d'))) b in
+          let ok := match r with
+                    | RStop => both true && acked outs
+                    | RContinue => both false
+                    | _ => true
+                    end in
+          negb ok || delay_run_bad tbl d' rs'
+      end
+  end.
+
+Definition delay_first_bad (tbl : ptable) : list N :=
+  match find (fun rs => delay_run_bad tbl (dinit 1) rs) delay_seqs with
+  | Some rs => 100 :: map (fun r => match r with RStop => 8 | _ => 9 end) rs
+  | None => []
+  end.
